@@ -37,7 +37,7 @@ func init() {
 			}
 			x.StrList("senderForBundleOps"+recv, c18LockOps(x, sfb))
 			// the whole control skeleton: `< 2` guards, skip of peers in sent, bookkeeping, `/ 2` split
-			x.StrList("senderForBundleSkeleton"+recv, x.Skeleton(sfb))
+			x.StrList("senderForBundleSkeleton"+recv, c18DropHooks(x.Skeleton(sfb)))
 
 			nb, err := x.Func(dir, recv, "NotifyNewBundle")
 			if err != nil {
